@@ -993,6 +993,14 @@ def discharge(hyps, goal, budget=20.0, skolems=(), want_model=True):
                     except z3.Z3Exception:
                         pass
                 if not has_int: break
+                if attempt == 0 and r == 'unknown':
+                    # nlsat ran out of time on the relaxed query: before the second relaxation give the default solver its short
+                    # try on the mixed query (it often proves these at once; only an `unsat` is taken from this probe)
+                    sp_ = z3.Solver()
+                    for f in fs: sp_.add(f)
+                    rp_, dtp_ = _check(sp_, 2500)
+                    log.append(('B2p:z3-smt-qf(probe)', rp_, round(dtp_, 3)))
+                    if rp_ == 'unsat': return done('proved', 'z3-smt-qf')
             # B2 (short): the default solver often decides mixed queries at once
             s = z3.Solver()
             for f in fs: s.add(f)
